@@ -85,7 +85,7 @@ def probe_enc(ctx, payload):
         diff = None
         for i, (ta, tb) in enumerate(zip(base.res, r2.res)):
             for j, (a, b) in enumerate(zip(ta, tb)):
-                if a[0].hex() != b[0].hex() or a[1].hex() != b[1].hex():
+                if float(a[0]).hex() != float(b[0]).hex() or float(a[1]).hex() != float(b[1]).hex():
                     diff = diff or dict(slot=[i, j], base=list(a), shadow=list(b), enc=[as_, vals], levels=meta["levels"])
         nt = (has_tie and has_float) or as_ == "scores" or (vals is not None and not _affine(meta["levels"], vals))
         ctx.case(dict(c=case, e=[as_, vals]), nt and updated(base))
